@@ -10,7 +10,8 @@ P == [sof |-> e.a[1], errpos |-> e.a[2], errcode |-> e.a[3], sinkat |-> e.a[4], 
       inp |-> Drop(e.a, 6)]
 RunOk == e.o = RunObs(P) /\ (P.errpos = 0 /\ P.sinkat = 0 /\ P.sof = 0 => ResyncClassicOK(P.inp))
 EncOk == LET r == EncRun(e.a[1], Drop(e.a, 6), e.a[2], e.a[4])
-         IN e.o = <<r.rc, Len(r.out)>> \o r.out
+             code == IF r.rc = SRCERR THEN e.a[3] ELSE IF r.rc = SINKERR THEN e.a[5] ELSE r.rc       \* the endpoint's own code, unchanged
+         IN e.o = <<code, Len(r.out)>> \o r.out
 TNext == /\ l <= Len(TraceLog) /\ l' = l + 1
          /\ CASE e.op = "@" -> TRUE
               [] e.op = "run" -> RunOk /\ e.asan = 0
